@@ -11,22 +11,22 @@ from litex.gen.fhdl.verilog import convert
 class D(Module):
     def __init__(self):
         self.s = Signal((4, True), name_override="s"); self.t = Signal(3, name_override="t"); self.u = Signal(4, name_override="u")
-        self.y = Signal(8, name_override="y"); self.z = Signal(8, name_override="z"); self.c = Signal(name_override="c")
-        self.comb += [self.y.eq(Cat(self.s, self.t)[0:4]), self.z.eq(Replicate(self.s, 2)[4:8]), self.c.eq(Cat(self.t, self.s)[3:7] < self.u)]
+        self.y = Signal(8, name_override="y"); self.y3 = Signal(8, name_override="y3"); self.z = Signal(8, name_override="z"); self.c = Signal(name_override="c")
+        self.comb += [self.y3.eq(self.s[0:4]), self.y.eq(Cat(self.s, self.t)[0:4]), self.z.eq(Replicate(self.s, 2)[4:8]), self.c.eq(Cat(self.t, self.s)[3:7] < self.u)]
 d = D(); seen = []
 def tb():
     for sv, uv in ((-1, 3), (-8, 9), (5, 3)):
         yield d.s.eq(sv); yield d.u.eq(uv); yield
-        seen.append(dict(s=sv, u=uv, y=(yield d.y), z=(yield d.z), c=(yield d.c)))
+        seen.append(dict(s=sv, u=uv, y3=(yield d.y3), y=(yield d.y), z=(yield d.z), c=(yield d.c)))
 run_simulation(d, tb())
 print("simulator:")
 for r in seen: print("  ", r)
-d2 = D(); txt = convert(d2, ios={d2.s, d2.t, d2.u, d2.y, d2.z, d2.c}, name="top").main_source
+d2 = D(); txt = convert(d2, ios={d2.s, d2.t, d2.u, d2.y, d2.y3, d2.z, d2.c}, name="top").main_source
 lines = [l for l in txt.splitlines() if l.startswith("assign") or re.match(r"\s*(input|output)", l)]
 print("emitted Verilog:"); print("\n".join("   " + l for l in lines))
-collapsed = "assign y = s;" in txt and re.search(r"input\s+wire\s+signed\s+\[3:0\] s", txt) is not None
+collapsed = "assign y = s;" in txt and "assign y3 = s;" in txt and re.search(r"input\s+wire\s+signed\s+\[3:0\] s", txt) is not None
 # IEEE-1364 reading of `assign y = s;` with `input wire signed [3:0] s`, `output wire [7:0] y`: y = sign-extension of s
-vl = [dict(s=r["s"], y=r["s"] & 0xff, c=int(r["s"] < r["u"])) for r in seen]
+vl = [dict(s=r["s"], y3=r["s"] & 0xff, y=r["s"] & 0xff, c=int(r["s"] < r["u"])) for r in seen]
 print("Verilog (sign extension of the signed net s into the 8-bit y; signed comparison s < $signed({1'd0, u})):")
 for r in vl: print("  ", r)
 differs = any(a["y"] != b["y"] or a["c"] != b["c"] for a, b in zip(seen, vl))
